@@ -66,6 +66,11 @@ pub fn fv_from_json(v: &Value) -> Result<FieldValue, String> {
         let bits = u64::from_str_radix(f.as_str().ok_or("f")?, 16).map_err(|e| e.to_string())?;
         return Ok(FieldValue::Number(Number::Float(f64::from_bits(bits))));
     }
+    if let Some(f) = o.get("f32") {
+        // through the crate's own `From<f32>`
+        let bits = u32::from_str_radix(f.as_str().ok_or("f32")?, 16).map_err(|e| e.to_string())?;
+        return Ok(FieldValue::from(f32::from_bits(bits)));
+    }
     if let Some(b) = o.get("b") {
         return Ok(FieldValue::Bool(b.as_bool().ok_or("b")?));
     }
